@@ -30,13 +30,25 @@ type Store struct {
 	Log    []Rec
 	FailAt int // >=0: the write that would get this log index (and later ones) fails
 	Gets   int
+	// FailGetAt >= 0: the read with this ordinal (counted from the moment it was armed) fails once
+	FailGetAt   int
+	getsArmed   int
+	GetFaultHit bool
 	// RecordGets, when non-nil, collects every key that was read
 	RecordGets map[string]bool
 }
 
 var ErrInjected = errors.New("injected write failure")
+var ErrInjectedRead = errors.New("injected read failure")
 
-func NewStore() *Store { return &Store{data: map[string][]byte{}, FailAt: -1} }
+func NewStore() *Store { return &Store{data: map[string][]byte{}, FailAt: -1, FailGetAt: -1} }
+
+// ArmGetFault makes the k-th read from now on fail (once); k < 0 disarms.
+func (s *Store) ArmGetFault(k int) {
+	s.mu.Lock()
+	defer s.mu.Unlock()
+	s.FailGetAt, s.getsArmed, s.GetFaultHit = k, 0, false
+}
 
 // FromLog builds a store holding exactly the given log (crash recovery = prefix).
 func FromLog(log []Rec) *Store {
@@ -73,6 +85,14 @@ func (s *Store) Get(k []byte) ([]byte, error) {
 	s.mu.Lock()
 	defer s.mu.Unlock()
 	s.Gets++
+	if s.FailGetAt >= 0 {
+		if s.getsArmed == s.FailGetAt {
+			s.getsArmed++
+			s.GetFaultHit = true
+			return nil, ErrInjectedRead
+		}
+		s.getsArmed++
+	}
 	if s.RecordGets != nil {
 		s.RecordGets[string(k)] = true
 	}
